@@ -87,7 +87,43 @@ export function makeCases(ctx, n, genOpts = {}, fixedSeeds = null) {
   return cases
 }
 
+/** `change:` listeners are registered under a normalised name and looked up when the attribute of that name is set:
+ *  a dashed spelling must behave exactly like the plain one (relative oracle: the control is a one-word name). */
+function changeListenerProbes(ctx) {
+  const { ge, report } = ctx
+  const mk = (tag, name) => `<${tag} ${name}="{{x}}" change:${name}="{{rec}}"/>`
+  const cases = [
+    { id: 0, what: 'component property', control: mk('x-a', 'title'), probe: mk('x-a', 'a-b'), pc: true },
+    { id: 1, what: 'component property', control: mk('x-a', 'value'), probe: mk('x-a', 'hover-class'), pc: true },
+    { id: 2, what: 'native attribute', control: mk('view', 'title'), probe: mk('view', 'aria-label'), pc: false },
+    { id: 3, what: 'native attribute', control: mk('view', 'src'), probe: mk('view', 'hover-stay-time'), pc: false },
+  ]
+  const compiled = compileMany(cases.flatMap((c) => [{ id: c.id * 2, files: [['p', c.control]], scripts: [] }, { id: c.id * 2 + 1, files: [['p', c.probe]], scripts: [] }]))
+  const runOne = (res, pc) => {
+    const calls = []
+    const data = { x: 'v0', rec: function rec(n, o) { calls.push([n, o]) } }
+    const inst = instantiate(ge, res.groups, 'p', data, { keepEvents: false, propComponents: pc })
+    if (inst.error) return { error: String(inst.error.message || inst.error) }
+    const atCreation = calls.length
+    try { inst.comp.setData({ x: 'v1' }) } catch (e) { return { error: String(e.message || e) } }
+    return { atCreation, afterUpdate: calls.length, calls: JSON.stringify(calls) }
+  }
+  for (const c of cases) {
+    const a = compiled.get(c.id * 2)
+    const b = compiled.get(c.id * 2 + 1)
+    if (!a || !b || a.inconclusive || b.inconclusive) { report.inconc('change-listener probe not compiled'); continue }
+    const ra = runOne(a, c.pc)
+    const rb = runOne(b, c.pc)
+    report.evals()
+    report.count('change_listener_probes')
+    if (ra.error || rb.error) { report.violation(`change: listener probe threw: ${ra.error || rb.error}`, { control: c.control, probe: c.probe }); continue }
+    if (ra.afterUpdate === 0) { report.count('change_listener_control_never_called'); continue }
+    if (ra.calls !== rb.calls) report.violation(`the change: listener of a dashed ${c.what} is not called like that of a one-word name: ${rb.calls} vs ${ra.calls}`, { control: c.control, probe: c.probe, control_calls: ra.calls, probe_calls: rb.calls })
+  }
+}
+
 export async function run(ctx) {
+  if (ctx.shard === 0) changeListenerProbes(ctx)
   const { report, tier } = ctx
   const N = tier === 'thorough' ? 9000 : 900
   const cases = makeCases(ctx, N)
@@ -107,6 +143,7 @@ export async function run(ctx) {
 
 export async function replay(ctx) {
   const w = ctx.replay.witness
+  if (w.caseSeed === undefined) { changeListenerProbes(ctx); return }
   const cases = makeCases(ctx, 1, w.genOpts || {}, [w.caseSeed])
   for (const c of cases) {
     const results = compileMany([{ id: c.id, files: c.sources, scripts: Object.entries(c.fs.scripts) }])
